@@ -78,8 +78,52 @@ def _seq(src, node):
     return [p[0] for p in pairs], [p[1] for p in pairs]
 
 
+PROBED = [False]  # set when the tables could not be read from the source text and were probed at run time instead
+
+
+def probe_tables():
+    """Fallback when the rule functions are no longer if/elif chains of literals (e.g. tables moved into dictionaries): call every
+    rule function on a box of keys and take what it returns.  The values are then the DOUBLES the code works with; the clause about
+    the literals as written (1e-30) cannot be decided in this mode and is skipped by the callers (PROBED[0] is True)."""
+    import numpy as np
+    import src.quadrature_rules as qr
+    entries, order = {}, []
+    for fn in FAMILIES:
+        f = getattr(qr, fn, None)
+        if f is None:
+            raise common.HarnessError('src.quadrature_rules has no ' + fn)
+        keys = [(n, ) for n in range(-2, 130)] if fn in GAUSS_FAMILIES else [(p_, l_) for p_ in range(-2, 26) for l_ in range(-2, 26)]
+        for k in keys:
+            try:
+                val = f(*k)
+            except BaseException:  # noqa: BLE001 - an absent key
+                continue
+            if val is None:
+                continue
+            try:
+                nodes = [Fraction(float(x)) for x in np.ravel(np.asarray(val[0], dtype=float))]
+                weights = [Fraction(float(x)) for x in np.ravel(np.asarray(val[1], dtype=float))]
+            except Exception:  # noqa: BLE001
+                continue
+            key = k[0] if fn in GAUSS_FAMILIES else k
+            e = Entry(fn, key, nodes, weights, [repr(float(x)) for x in nodes], [repr(float(x)) for x in weights], True, 0)
+            entries[(fn, key)] = e
+            order.append((fn, key))
+    if len(entries) < 20:
+        raise common.HarnessError('probing the rule functions found only {} entries'.format(len(entries)))
+    PROBED[0] = True
+    return entries, order, []
+
+
 def parse_tables(path=None):
     """-> (entries: dict (fn, key) -> Entry, order: list of (fn, key) in source order, dead: list of Entry)"""
+    try:
+        return _parse_tables_source(path)
+    except common.HarnessError:
+        return probe_tables()
+
+
+def _parse_tables_source(path=None):
     path = path or rules_path()
     with open(path) as fh:
         src = fh.read()
